@@ -12,6 +12,8 @@ structure TablesOk : Prop where
   inFilterFw : isFirewalled Gen.ircCallbackFirewalled "inFilter" = true
   outFilterFw : isFirewalled Gen.ircCallbackFirewalled "outFilter" = true
   callFw : isFirewalled Gen.ircCallbackFirewalled "__call__" = true
+  inFilterH : passHandler Gen.ircCallbackFirewalled "inFilter" = some (.ret true)
+  outFilterH : passHandler Gen.ircCallbackFirewalled "outFilter" = some (.ret true)
   catchF : Gen.firewallCatch = "Exception"
   catchH : Gen.firewallHandlerCatch = "Exception"
   runCatch : Gen.driversRunCatch = ""
@@ -26,11 +28,16 @@ instance : Decidable TablesOk :=
     (isFirewalled Gen.ircFirewalled "feedMsg" = true ∧ isFirewalled Gen.ircFirewalled "takeMsg" = true ∧
      isFirewalled Gen.ircStateFirewalled "addMsg" = true ∧ isFirewalled Gen.ircCallbackFirewalled "inFilter" = true ∧
      isFirewalled Gen.ircCallbackFirewalled "outFilter" = true ∧ isFirewalled Gen.ircCallbackFirewalled "__call__" = true ∧
+     Gen.ircCallbackFirewalled.lookup "inFilter" = some true ∧ Gen.ircCallbackFirewalled.lookup "outFilter" = some true ∧
      Gen.firewallCatch = "Exception" ∧ Gen.firewallHandlerCatch = "Exception" ∧ Gen.driversRunCatch = "" ∧
      malformedCaught = true ∧ regionCatch "addMsg" = some "" ∧ regionCatch "inFilter" = some "" ∧
      regionCatch "callback" = some "" ∧ encodeStrict = false)
-    ⟨fun ⟨a, b, c, d, e, f, g, h, i, j, k, l, m, n⟩ => ⟨a, b, c, d, e, f, g, h, i, j, k, l, m, n⟩,
-     fun ⟨a, b, c, d, e, f, g, h, i, j, k, l, m, n⟩ => ⟨a, b, c, d, e, f, g, h, i, j, k, l, m, n⟩⟩
+    ⟨fun ⟨a, b, c, d, e, f, x, y, g, h, i, j, k, l, m, n⟩ =>
+      ⟨a, b, c, d, e, f, by simp [passHandler, x], by simp [passHandler, y], g, h, i, j, k, l, m, n⟩,
+     fun ⟨a, b, c, d, e, f, x, y, g, h, i, j, k, l, m, n⟩ =>
+      ⟨a, b, c, d, e, f,
+       by unfold passHandler at x; split at x <;> simp_all,
+       by unfold passHandler at y; split at y <;> simp_all, g, h, i, j, k, l, m, n⟩⟩
 
 /-! ### exceptions -/
 
@@ -286,7 +293,7 @@ theorem inFilterLoop_pass (tk : TablesOk) (i : Nat) (l : List (Outcome Bool)) (h
       congr 1
       omega
     unfold inFilterLoop
-    simp only [tk.inFilterFw, ↓reduceIte, firewall, tk.catchF, tk.catchH]
+    simp only [tk.inFilterFw, tk.inFilterH, ↓reduceIte, firewall, tk.catchF, tk.catchH]
     match o, ho with
     | .ret true, _ =>
       simp only [firewallWith]
@@ -309,7 +316,7 @@ theorem outFilterLoop_pass (tk : TablesOk) (l : List (Outcome Bool)) (h : ∀ o 
     have ho := h o (by simp)
     have hr := ih (fun o' ho' => h o' (by simp [ho']))
     unfold outFilterLoop
-    simp only [tk.outFilterFw, ↓reduceIte, firewall, tk.catchF, tk.catchH]
+    simp only [tk.outFilterFw, tk.outFilterH, ↓reduceIte, firewall, tk.catchF, tk.catchH]
     match o, ho with
     | .ret true, _ => simp only [firewallWith]; exact hr
     | .raise (.exception n), _ => simp only [firewallWith, catches_exception, ↓reduceIte]; exact hr
@@ -322,7 +329,7 @@ theorem outFilterLoop_onlyExc (tk : TablesOk) (l : List (Outcome Bool)) (h : ∀
     have ho := h o (by simp)
     have hr := ih (fun o' ho' => h o' (by simp [ho']))
     unfold outFilterLoop
-    simp only [tk.outFilterFw, ↓reduceIte, firewall, tk.catchF, tk.catchH]
+    simp only [tk.outFilterFw, tk.outFilterH, ↓reduceIte, firewall, tk.catchF, tk.catchH]
     match o, ho with
     | .ret true, _ => simp only [firewallWith]; exact hr
     | .ret false, _ => simp only [firewallWith]; trivial
